@@ -94,6 +94,15 @@ CHECKS["C10"] = dict(
          "return value, lengths and output.",
     design="4/C10", technique="Coq non-interference proof (observer threading) + exhaustive presence-pattern differential runs")
 
+CHECKS["C04"] = dict(
+    text="Machine-checked proof (Coq) on the F engine: reported lengths lie within the supplied ones; with capacity at least twice the "
+         "longest emission per character the whole input is consumed (no back-off, no drop); the only failure of a call with a "
+         "compiled table is a cell without display mapping and only when the display table is consulted; re-encoding preserves "
+         "length. For all shipped tables the clauses of the property (lengths, displayable output, completeness with capacity "
+         "32*inlen+256, failure reasons with an error-level message, invalid arguments rejected) are evaluated on real results: a "
+         "runtime predicate, not a theorem, outside fragment F.",
+    design="4/C04", technique="Coq proof (length and completeness invariants of the main-pass loop) + property clauses evaluated on sanitizer-instrumented real calls")
+
 PENDING = {}
 
 
